@@ -44,7 +44,12 @@ Definition on_ob7 (k : trk) (o : obs) (x : m7) : option m7 :=
   | Hang => None
   end.
 
-Definition ok (c : case) : bool :=
+(* part 1: the shutdown sub-monitor (Case_Buffer.shut_ok), proved complete and sound *)
+Definition ok_shut (c : case) : bool :=
+  match c with Case T evs observed => shut_ok evs observed end.
+
+(* part 2: barrier / settled walk *)
+Definition ok_walk (c : case) : bool :=
   match c with
   | Case T evs observed =>
       match walk m7 on_ev7 on_ob7 evs observed trk0 m7_0 with
@@ -54,6 +59,8 @@ Definition ok (c : case) : bool :=
           (if settled_waits T evs then match pend x with [] => true | _ => false end else true)
       end
   end.
+
+Definition ok (c : case) : bool := ok_shut c && ok_walk c.
 
 Definition nontrivial (c : case) : bool :=
   match c with
